@@ -415,7 +415,63 @@ func c17Run(c *engine.Ctx) {
 			}
 		}
 	}
-	c.Sample(map[string]any{"modes": "default, --stream, -s, --slurpfile on truncated documents"})
+	// characters made of several code points in front of the defect
+	if c.MineIdx(2) {
+		for _, cl := range []string{"\u1100\u1161\u11a8", "\U0001F44D\U0001F3FD", "\U0001F468\u200d\U0001F469\u200d\U0001F467", "1\ufe0f\u20e3", "\U0001F1EF\U0001F1F5", "e\u0301\u0323", "\uAC01", "x"} {
+			for _, tmpl := range []string{"{\n  \"name\": \"C\", }", "[\"C\", \"CC\" 1]", "{\"C\": tru }", "[1,\n\"CCC\",, 2]"} {
+				text := strings.ReplaceAll(tmpl, "C", cl)
+				want := c17FirstError(text)
+				if want < 0 {
+					continue
+				}
+				for _, args := range [][]string{{"-c", "."}, {"--stream", "-c", "."}} {
+					c.Eval()
+					r := RunCLIString(args, text)
+					msg := ""
+					if r.Status != 5 {
+						msg = fmt.Sprintf("status %d for a malformed stream", r.Status)
+					} else {
+						msg = c17CheckReport(text, want, r.Stderr)
+					}
+					c.DistinctN(1)
+					if msg != "" {
+						c.Violation(fmt.Sprintf("cluster %q in %q %v", cl, tmpl, args), "json-position", map[string]any{"why": msg, "stderr": head(r.Stderr, 300)})
+					}
+				}
+			}
+		}
+	}
+	// scalars longer than every internal window (16 KiB, 64 KiB) with the defect near their end
+	if c.MineIdx(1) {
+		for _, n := range []int{100, 16000, 16384, 16400, 20000, 40000, 70000, 140000} {
+			for _, bad := range []string{`\x`, "\x01", `\u12G4`, "\n"} {
+				for _, lead := range []string{"[\n1,\n ", "{\"k\":\n\n", ""} {
+					text := lead + `"` + strings.Repeat("a", n) + bad + `"` + "\n]"
+					want := c17FirstError(text)
+					if want < 0 {
+						continue
+					}
+					for _, args := range [][]string{{"-c", "."}, {"--stream", "-c", "."}} {
+						for ti, tr := range c17Transports[:2] {
+							c.Eval()
+							r := c17RunInput(args, text, tr, dir, c.Shard)
+							msg := ""
+							if r.Status != 5 {
+								msg = fmt.Sprintf("status %d for a malformed stream", r.Status)
+							} else {
+								msg = c17CheckReport(text, want, r.Stderr)
+							}
+							c.DistinctN(1)
+							if msg != "" {
+								c.Violation(fmt.Sprintf("long scalar n=%d bad=%q lead=%q %v %s", n, bad, lead, args, tr.name), "json-position", map[string]any{"why": msg, "stderr": head(r.Stderr, 300), "transport": ti})
+							}
+						}
+					}
+				}
+			}
+		}
+	}
+	c.Sample(map[string]any{"modes": "default, --stream, -s, --slurpfile on truncated documents; strings of 100 B .. 140 KB with a bad escape, control character or newline at their end"})
 
 	// YAML: the parser is the YAML library's, so there is no independent position oracle; but replacing ASCII filler
 	// characters by multi-byte characters of the same display width must not move the reported line or the caret
@@ -514,7 +570,9 @@ func c17Queries(c *engine.Ctx) {
 	}
 	// contexts: text before the offender ends in a complete term at top level, so the offender cannot continue it
 	prefixes := []string{"1 ", ".a ", "[1, 2] | .[0] ", "def f: .;\n. as $x |\n  $x ", "1 as $x | # comment\n\t$x ", "\"é日本\" ", "\"" + strings.Repeat("日", 30) + "\" | .a ",
-		strings.Repeat("1 + ", 30) + "2 ", "{a: 1}\r\n| .a ", ".\r.a ", "\"a\\(1)b\" ", ".[\"k\"] ", "(1, 2) ", "{\"é\": [1]} | .[\"é\"] ", "  \t .a ", "\n\n# leading blank lines\n.a ", "\r\n\r\n.a ", "\n.a\n| .b ", "\n\n\n1 "}
+		strings.Repeat("1 + ", 30) + "2 ", "{a: 1}\r\n| .a ", ".\r.a ", "\"a\\(1)b\" ", ".[\"k\"] ", "(1, 2) ", "{\"é\": [1]} | .[\"é\"] ", "  \t .a ", "\n\n# leading blank lines\n.a ", "\r\n\r\n.a ", "\n.a\n| .b ", "\n\n\n1 ",
+		// characters made of several code points (their width is not the sum of the widths of the code points)
+		"\"\u1100\u1161\u11a8\" ", "\"\U0001F44D\U0001F3FD\" ", "\"\U0001F468\u200d\U0001F469\u200d\U0001F467\" ", "\"1\ufe0f\u20e3\" ", "\"\U0001F1EF\U0001F1F5\" ", "\"e\u0301\u0323\" | .a "}
 	suffixes := []string{"", " | .", "\n| . + 1", " 日本"}
 	idx := 0
 	for _, pre := range prefixes {
@@ -584,6 +642,9 @@ func c17Replay(v *engine.Violation) (bool, string) {
 	WorkDir()
 	defer CleanupWorkDir()
 	d := v.Detail
+	if v.Check == "json-modes" {
+		return true, fmt.Sprint(d["why"])
+	}
 	if v.Check == "yaml-metamorphic" {
 		return true, fmt.Sprint(d["why"])
 	}
@@ -620,7 +681,7 @@ func init() {
 		ID:    "C17",
 		Level: "fault_enumeration",
 		Rule: "well-formed multi-line documents of 3 kinds (one scalar per line; nested objects with multi-byte and double-width characters; lines longer than the excerpt window) x sizes {40 B, 500 B, 4 KiB, 16 KiB-1/+0/+1, 40 KiB, thorough 70 KiB} x line terminators {LF, CRLF, CR} x 0..3 preceding valid documents (3/9/14 KB, so the 16 KiB window reset falls before, inside and after the faulty document) are corrupted by replacing ONE byte (by ? and by 0xFF) at EVERY byte for small documents and at every byte within +-70 of each multiple of 4096 and 16384, +-6 of each multiple of 512 and the first/last 80 bytes otherwise; each corrupted stream goes through 8 transports (regular file; pipe delivered whole and in chunks of 1, 7, 512, 4096, 16384, 16385), as values and again token by token under --stream (quick: an eighth of the positions, file and whole-pipe transports). " +
-			"The absolute offset of the offending byte comes from encoding/json run by the harness on the same bytes; the reported line must be its 1-based line (LF, CRLF, CR), the quoted text a piece of that line covering it, and the caret under it in terminal columns (go-runewidth). Truncations under default/--stream/-s/--slurpfile; query errors: 52 offending token kinds x 19 contexts (incl. leading blank lines) x 4 continuations, as argument and -f file, checked for ParseError Offset/Token and the caret.",
+			"The absolute offset of the offending byte comes from encoding/json run by the harness on the same bytes; the reported line must be its 1-based line (LF, CRLF, CR), the quoted text a piece of that line covering it, and the caret under it in terminal columns (go-runewidth). Truncations under default/--stream/-s/--slurpfile; query errors: 52 offending token kinds x 25 contexts (incl. leading blank lines and characters made of several code points) x 4 continuations, as argument and -f file, checked for ParseError Offset/Token and the caret.",
 		Assume:         []string{"encoding/json's SyntaxError.Offset on the harness's own decode of the same bytes locates the offending byte; go-runewidth gives terminal widths"},
 		Run:            c17Run,
 		Replay:         c17Replay,
